@@ -240,7 +240,7 @@ pub fn any_doc(rng: &mut Rng) -> String {
         8..=10 => { let s = rng.pick(&SPEC).clone(); s }
         11..=14 => { let s = rng.pick(&SPEC).clone(); mutate(rng, &s) }
         15 => { let s = rng.pick(&SPEC).clone(); wrap_container(rng, &s) }
-        16 => { let n = rng.range(1, 12); adversarial(rng, n) }
+        16 => { let n = if rng.chance(1, 4) { rng.range(60, 160) } else { rng.range(1, 12) }; adversarial(rng, n) }
         17 => malformed(rng),
         18 => sig_string(rng, 30),
         _ => { let d = grammar_doc(rng); mutate(rng, &d) }
